@@ -492,7 +492,7 @@ ASSUMPTIONS = [
 EXPLANATION = "Set-algebra contract of _post_checks plus lock-step bookkeeping of the delay translation."
 MANIFEST = {
     "category": "proof",
-    "text": "_post_checks is executed symbolically with every delay duration's free-symbol set arbitrary and the fixed flags of inputs symbolic: it raises ValueError exactly when some duration depends on time, a state, a derivative, an algebraic variable or a non-fixed input. The delay branch of exitExpression (extracted structurally) is verified to extend delay_states, inputs and delay_arguments in lock step with a counter-based name; delay_arguments_function to output [e1,d1,e2,d2,...]; _compile_model to call _post_checks on what it returns; _substitute_delay_arguments (used by every simplification step) to rewrite both the expression and the duration of every delay with the full substitution. A bounded replay compiles real models with durations from each variable category.",
+    "text": "_post_checks is executed symbolically with every delay duration's free-symbol set arbitrary and the fixed flags of inputs symbolic: it raises ValueError exactly when some duration depends on time, a state, a derivative, an algebraic variable or a non-fixed input. The delay branch of exitExpression (extracted structurally) is verified to extend delay_states, inputs and delay_arguments in lock step with a counter-based name; delay_arguments_function to output [e1,d1,e2,d2,...]; _compile_model to call _post_checks on what it returns; _substitute_delay_arguments (used by every simplification step) to rewrite both the expression and the duration of every delay with the full substitution. A bounded replay compiles real models with durations from each variable category. Model._substitute_metadata (C13's contract) is discharged here: a fixed flag written as a Boolean parameter is resolved like every other attribute.",
     "note": "CasADi's depends_on/veccat are assumed (free-symbol-set semantics); list shapes enumerated; delays in for-loops only in the replay.",
     "technique": "contract-based deductive verification: symbolic execution with expressions abstracted to free-symbol sets (z3 arrays + quantifiers), structural fragment extraction",
 }
